@@ -1088,10 +1088,22 @@ static void gen_expr(Node *node) {
     gen_expr(node->lhs);
     push();
     gen_expr(node->rhs);
+
+    // xchg works on general-purpose registers: a float or double travels
+    // through %rax as the integer of the same size holding the same bits.
+    if (node->ty->kind == TY_FLOAT)
+      println("  movd %%xmm0, %%eax");
+    else if (node->ty->kind == TY_DOUBLE)
+      println("  movq %%xmm0, %%rax");
     pop("%rdi");
 
     int sz = node->lhs->ty->base->size;
     println("  xchg %s, (%%rdi)", reg_ax(sz));
+
+    if (node->ty->kind == TY_FLOAT)
+      println("  movd %%eax, %%xmm0");
+    else if (node->ty->kind == TY_DOUBLE)
+      println("  movq %%rax, %%xmm0");
 
     // The upper bits of %rax still hold the new value: extend the old one.
     char *insn = node->lhs->ty->base->is_unsigned ? "movz" : "movs";
